@@ -682,16 +682,35 @@ func (c *Ctx) ringPositions() {
 			}
 			cursor := sp.Fields[len(sp.Fields)-1]
 			nset++
-			ok := false
-			v := ir.SeeThrough(call.Common().Args[1])
-			if bo, isB := v.(*ssa.BinOp); isB && bo.Op == token.ADD {
-				for _, pr := range [][2]ssa.Value{{bo.X, bo.Y}, {bo.Y, bo.X}} {
-					base := pr[0]
-					if _, isK := pr[1].(*ssa.Const); isK {
-						continue // cursor + constant is not "cursor + bytes moved"
+			advances := func(v ssa.Value) bool {
+				v = ir.SeeThrough(v)
+				if bo, isB := v.(*ssa.BinOp); isB && bo.Op == token.ADD {
+					for _, pr := range [][2]ssa.Value{{bo.X, bo.Y}, {bo.Y, bo.X}} {
+						base := pr[0]
+						if _, isK := pr[1].(*ssa.Const); isK {
+							continue // cursor + constant is not "cursor + bytes moved"
+						}
+						if cursor == "cseq" && readsCursor(base, "cseq", 0) || cursor == "pseq" && fromProducerCursor(base) {
+							return true
+						}
 					}
-					if cursor == "cseq" && readsCursor(base, "cseq", 0) || cursor == "pseq" && fromProducerCursor(base) {
-						ok = true
+				}
+				return false
+			}
+			ok := advances(call.Common().Args[1])
+			// the store moved into a helper that is handed the new position: decided at its call sites
+			if prm, isP := ir.SeeThrough(call.Common().Args[1]).(*ssa.Parameter); isP && !ok && (fn.Object() == nil || !fn.Object().Exported()) {
+				idx := -1
+				for i, q := range fn.Params {
+					if q == prm {
+						idx = i
+					}
+				}
+				sites := c.P.Callers(fn)
+				ok = idx >= 0 && len(sites) > 0
+				for _, site := range sites {
+					if site.Common().StaticCallee() != fn || idx >= len(site.Common().Args) || !advances(site.Common().Args[idx]) {
+						ok = false
 					}
 				}
 			}
@@ -700,7 +719,7 @@ func (c *Ctx) ringPositions() {
 		}
 	}
 	c.R.Count("cursor updates in the ring", nset)
-	c.R.Floor("cursor updates in the ring", nset, 4)
+	c.R.Floor("cursor updates in the ring", nset, 2)
 	c.R.Count("ring storage accesses with a cursor-derived start index", n)
 	c.R.Floor("ring storage accesses with a cursor-derived start index", n, 8)
 }
